@@ -29,7 +29,10 @@ RULE = ("exhaustive part: every population shape (identity-duplicates included) 
         "tournament sizes up to 12, epsilon-lexicase on values 0..6, scripted and NativeRandomSource draws. Non-trivial: "
         "population >= 2 and target >= 1; distinct = distinct protocol lines")
 ASSUMPTIONS = [
-    "fitness values are integers (an arbitrary linear order); NaN / inf fitness is not modelled",
+    "fitness values are integers (an arbitrary linear order); inf fitness is not modelled; a lexicase case on which every candidate is NaN is "
+    "modelled as a skipped case (no candidate passes it; the candidates stay as they were)",
+    "pools that are only partly evaluated, under the sequential and the parallel evaluator, are judged by the fitness the problem's function "
+    "assigns to each program (fresh sequential evaluation), not by what is stored on the individuals",
     "epsilon-lexicase: numpy's median / MAD on integer-valued floats is exact (multiples of 1/4); modelled in integers scaled by 4",
     "TournamentSelection re-binds `candidates` to the participants of the previous tournament (the pool collapses); this does "
     "not contradict C17 as stated (winner is a member of the given population and at least as fit as every participant drawn "
@@ -83,13 +86,13 @@ def lib_pop(inds, problem):
     return [sc.impl_fitness(i, problem) for i in inds]
 
 
-def run_selection(step, problem, rep, src, inds, k, form="list"):
+def run_selection(step, problem, rep, src, inds, k, form="list", evaluator=None):
     """`form`: how the population is handed over -- a list, a tuple, or a one-shot iterator (what a
     SequenceStep hands to its second step)"""
     given = {"list": lambda: list(inds), "tuple": lambda: tuple(inds), "iterator": lambda: iter(list(inds)),
              "generator": lambda: (i for i in list(inds))}[form]()
     try:
-        return list(step.apply(problem, SequentialEvaluator(), rep, src, given, k, 1))
+        return list(step.apply(problem, evaluator or SequentialEvaluator(), rep, src, given, k, 1))
     except NeedMore:
         raise
     except Exception as e:  # noqa: BLE001
@@ -414,7 +417,109 @@ def check_second_problem(h: Harness):
     h.count("second-problem-cases")
 
 
+def true_pop(inds, problem, rep):
+    """[id, aggregate, components] per slot with the fitness the PROBLEM assigns to each program (fresh
+    individuals, sequential evaluation) -- not what happens to be stored on the individuals handed over"""
+    fresh = {}
+    out = []
+    for i in inds:
+        if id(i) not in fresh:
+            c = Individual(i.genotype, rep)
+            c.ensure_fitness(problem)
+            fresh[id(i)] = sc.impl_fitness(c, problem)
+        out.append(fresh[id(i)])
+    return out
+
+
+def check_partly_evaluated_pools(h: Harness):
+    """the pool a selection step receives is only PARTLY evaluated (survivors of an earlier call, then
+    newcomers; or interleaved), and the evaluator is the sequential or the parallel one: winners are judged by
+    the fitness the problem's function assigns to their programs"""
+    from geneticengine.evaluation.parallel import ParallelEvaluator
+    rng = h.rng
+    layouts = [("survivors-then-newcomers", lambda n, j: j < n // 2), ("interleaved", lambda n, j: j % 2 == 0),
+               ("newcomers-then-survivors", lambda n, j: j >= n // 2), ("one-newcomer-last", lambda n, j: j < n - 1)]
+    cases = []
+    for evname in ("parallel", "sequential"):
+        for li, (lname, pre) in enumerate(layouts):
+            for kind in (("single-max", "multi", "single-min") if evname == "sequential" else (("single-max", "single-min", "multi")[li % 3],)):
+                cases.append((evname, lname, pre, kind))
+    for evname, lname, pre, kind in cases:
+        n = rng.randint(6, 9)
+        vals = rng.sample(range(-20, 20), n)            # distinct: a mis-assigned fitness changes the ranking
+        rep = StubRep(2)
+        mins = [False, True]
+        comps = {o: [rng.randint(0, 3), rng.randint(0, 3)] for o in range(n)}
+        problem, inds = build(rep, list(range(n)), {o: vals[o] for o in range(n)}, comps, kind, mins)
+        ev = ParallelEvaluator() if evname == "parallel" else SequentialEvaluator()
+        already = [i for j, i in enumerate(inds) if pre(n, j)]
+        ev.evaluate(problem, already)
+        truth = true_pop(inds, problem, rep)
+        # tournament
+        ts, k = 3, n
+        rec = Recording(NativeRandomSource(rng.randrange(10**6)))
+        res = run_selection(TournamentSelection(ts, with_replacement=True), problem, rep, rec, inds, k, "list", ev)
+        h.count(f"partly-evaluated-pool:{evname}:{lname}")
+        emit_tournament(h, truth, res, rec, list(rec.script), ts, True, k, kind, f"partly-evaluated-{evname}")
+        stored = lib_pop(inds, problem)
+        if stored != truth:
+            h.fail("TournamentSelection.apply", "selects-on-fitness-of-another-individual",
+                   f"{evname} evaluator, pool {lname} ({kind}): after the selection step the stored (id, aggregate, components) are {stored}, "
+                   f"the problem assigns {truth}", {"values": vals, "layout": lname, "evaluator": evname, "problem": kind})
+        # lexicase on a second pool of the same layout
+        if kind == "multi":
+            problem2, inds2 = build(rep, list(range(n)), {o: 0 for o in range(n)}, comps, "multi", mins)
+            ev.evaluate(problem2, [i for j, i in enumerate(inds2) if pre(n, j)])
+            truth2 = true_pop(inds2, problem2, rep)
+            rec2 = Recording(NativeRandomSource(rng.randrange(10**6)))
+            res2 = run_selection(LexicaseSelection(), problem2, rep, rec2, inds2, n // 2, "list", ev)
+            emit_lexicase(h, truth2, res2, rec2, list(rec2.script), mins, False, n // 2, f"partly-evaluated-{evname}")
+
+
+def check_lexicase_uninformative_case(h: Harness):
+    """a case on which every candidate is NaN tells nothing apart (no candidate passes it): the winner must still
+    survive the filter of the OTHER cases in the drawn order -- the filtering done before that case must not be
+    forgotten"""
+    from geneticengine.problems import MultiObjectiveProblem
+    rng = h.rng
+    nan = float("nan")
+    for t in range(h.n(60, 600)):
+        n = rng.randint(3, 7)
+        nc = rng.randint(2, 4)
+        table = [[rng.randint(0, 2) for _ in range(nc)] for _ in range(n)]
+        mins = [rng.random() < 0.5 for _ in range(nc)]
+        at = rng.randrange(nc + 1)                      # position of the all-NaN case
+        mins_full = mins[:at] + [rng.random() < 0.5] + mins[at:]
+        rep = StubRep(nc + 1)
+        problem = MultiObjectiveProblem(list(mins_full), lambda p: list(p[1]), aggregate_fitness=lambda comps: 0.0)
+        inds = [Individual((i, [float(x) for x in row[:at]] + [nan] + [float(x) for x in row[at:]]), rep) for i, row in enumerate(table)]
+        k = rng.randint(1, n)
+        rec = Recording(NativeRandomSource(rng.randrange(10**6)))
+        res = run_selection(LexicaseSelection(), problem, rep, rec, inds, k, "list")
+        replay = {"table": table, "minimize": mins_full, "nan_case": at, "target_size": k, "script": list(rec.script)}
+        h.count("lexicase:all-NaN-case")
+        if isinstance(res, str):
+            h.fail("LexicaseSelection.apply", "raises", f"lexicase on {table} with an all-NaN case at {at}: {res}", replay)
+            continue
+        pop = [[i, 0, list(row)] for i, row in enumerate(table)]
+        winners = [pop[w.genotype[0]] for w in res]
+        if len(rec.shuffles) != len(winners):
+            continue
+        remaining = list(pop)
+        for cases_drawn, w in zip(rec.shuffles, winners):
+            order = [c if c < at else c - 1 for c in cases_drawn if c != at]
+            h.holds("LexicaseSelection.apply", "winner-not-a-lexicase-survivor",
+                    ["prop_lexicase_round", remaining, nc, mins, False, order, w],
+                    f"LexicaseSelection with an uninformative (all-NaN) case {at}: winner {w} among {remaining} (minimize={mins}) does not "
+                    f"survive the filter of the informative cases in the drawn order {order} (drawn: {cases_drawn})", replay, nontrivial=True)
+            if w in remaining:
+                remaining = list(remaining)
+                remaining.remove(w)
+
+
 def run(h: Harness):
+    check_partly_evaluated_pools(h)
+    check_lexicase_uninformative_case(h)
     check_scale_invariance(h)
     check_second_problem(h)
     check_lexicase_exhaustive(h)
